@@ -35,6 +35,9 @@ pub async fn run_swarm_worker(
     server_start_instant: ServerStartInstant,
     worker_index: usize,
 ) -> anyhow::Result<()> {
+    #[cfg(feature = "verif")]
+    aquatic_common::verif_fault!("ws.swarm.start");
+
     let (_, mut control_message_receivers) = control_message_mesh_builder
         .join(Role::Consumer)
         .await
@@ -148,6 +151,9 @@ async fn handle_request_stream<S>(
         .for_each_concurrent(
             SHARED_IN_CHANNEL_SIZE,
             move |(meta, in_message)| async move {
+                #[cfg(feature = "verif")]
+                aquatic_common::verif_fault_basic!("ws.swarm.request");
+
                 let mut out_messages = Vec::new();
 
                 match in_message {
